@@ -799,6 +799,12 @@ class Engine:
         return self.arith(op, a, b, node)
 
     def arith(self, op, a, b, node=None):
+        if op == "@":
+            for hook in self.arith_hooks:
+                r = hook(self, op, a, b)
+                if r is not NotImplemented:
+                    return r
+            raise OutsideSubset("matrix product of {!r}, {!r}".format(type(a).__name__, type(b).__name__))
         if isinstance(a, Vec) or isinstance(b, Vec):
             if isinstance(a, Vec) and isinstance(b, Vec):
                 if len(a) != len(b):
@@ -1149,11 +1155,8 @@ class Engine:
             return list(v.keys())
         raise OutsideSubset("iteration over %r" % (type(v).__name__,))
 
-    def ev_ListComp(self, node, env):
-        if len(node.generators) != 1:
-            raise OutsideSubset("nested comprehension")
-        g = node.generators[0]
-        out = []
+    def _comp(self, generators, env, emit):
+        g = generators[0]
         for item in self.iter_concrete(self.ev(g.iter, env)):
             e2 = Env(env)
             self.assign(g.target, item, e2)
@@ -1162,9 +1165,29 @@ class Engine:
                 if not self.branch(self.ev(cond, e2), "compif"):
                     ok = False
                     break
-            if ok:
-                out.append(self.ev(node.elt, e2))
+            if not ok:
+                continue
+            if len(generators) > 1:
+                self._comp(generators[1:], e2, emit)
+            else:
+                emit(e2)
+
+    def ev_ListComp(self, node, env):
+        out = []
+        self._comp(node.generators, env, lambda e2: out.append(self.ev(node.elt, e2)))
         return VList(out)
+
+    def ev_DictComp(self, node, env):
+        out = {}
+
+        def emit(e2):
+            k = self.ev(node.key, e2)
+            out[k] = self.ev(node.value, e2)
+        self._comp(node.generators, env, emit)
+        return out
+
+    def ev_GeneratorExp(self, node, env):
+        return self.ev_ListComp(node, env)
 
     def ev_Call(self, node, env):
         # old(expr) in spec clauses
@@ -1442,7 +1465,7 @@ class Engine:
             for hook in self.setitem_hooks:
                 if hook(self, base, idx, v) is not NotImplemented:
                     return
-            if isinstance(base, VList) and isinstance(idx, int):
+            if isinstance(base, (VList, Vec)) and isinstance(idx, int):
                 base.items[idx] = v
             elif isinstance(base, dict):
                 base[idx] = v
